@@ -44,7 +44,12 @@ func (u *Upsert) Encode(c *proto.PacketContext, wr io.Writer) error {
 		if err := util.WriteUUID(wr, entry.ProfileID); err != nil {
 			return err
 		}
-		for _, action := range u.ActionSet {
+		// The client reads the data of the present actions in the protocol's fixed order
+		// (the order of UpsertActions), whatever the order of u.ActionSet.
+		for _, action := range UpsertActions {
+			if !ContainsAction(u.ActionSet, action) {
+				continue
+			}
 			if err := action.Encode(c, wr, entry); err != nil {
 				return err
 			}
